@@ -2,7 +2,7 @@
      server.go     writeFrame (queuedControlFrames++ for frames without a stream), scheduleFrameWrite
                    (needToSendSettingsAck first, then writeSched.take with queuedControlFrames-- for control frames,
                    then the flush pseudo frame), startFrameWrite, wroteFrame, the limit check at the end of every
-                   serve-loop iteration, processPing / processSettings / processData (unknown stream: connection
+                   serve-loop iteration, processPing / processSettings / processWindowUpdate (stream window overflow) / processData (unknown stream: connection
                    WINDOW_UPDATE refund + RST_STREAM) / resetStream / processResetStream -> closeStream
      writesched.go add, take (zero queue first), forgetStream
    A frame waiting in the scheduler is a tag (Z): PING ack = its payload id (> 0), connection WINDOW_UPDATE = 0,
@@ -83,6 +83,9 @@ Inductive event :=
 | EHandlerFrame (sid tag : Z) (* a handler's frame arriving on wantWriteFrameCh *)
 | EHandlerCtl (tag : Z)     (* a handler-originated frame without stream (e.g. after the stream is gone) *)
 | ERstStream (sid : Z)      (* RST_STREAM from the client for an open stream: closeStream -> forgetStream *)
+| EWindowOverflow (sid : Z) (* WINDOW_UPDATE overflowing the send window of stream sid: for an open stream a stream error
+                               FLOW_CONTROL -> resetStream (RST_STREAM queued, then closeStream -> forgetStream);
+                               for a stream that is not open: ignored *)
 | EWrote                    (* wroteFrameCh: the writer goroutine finished a frame *)
 | ENop.                     (* anything without effect on the scheduler (HEADERS opening a stream, testHookCh, ...) *)
 
@@ -95,6 +98,10 @@ Definition handle (c : conn) (e : event) : conn :=
   | EHandlerFrame sid tag => write_frame c sid tag
   | EHandlerCtl tag => write_frame c 0 tag
   | ERstStream sid => upd_sched c (zero c) (sq_forget (sq c) sid) (queued c)
+  | EWindowOverflow sid =>
+    if existsb (fun e => fst e =? sid) (sq c) then
+      let c1 := write_frame c 0 (- sid) in upd_sched c1 (zero c1) (sq_forget (sq c1) sid) (queued c1)
+    else c
   | EWrote => wrote_frame c
   | ENop => c
   end.
